@@ -295,8 +295,6 @@ def _run(case, scratch):
                 if not shared_names:
                     # own children untouched
                     pass
-            if not linker.is_merged:
-                fail("linker-not-marked-as-merged-after-finalize", None, step=stepname)
         if d is doc:
             now = outside_snapshot(doc, linkers)
             if now != out0:
@@ -319,8 +317,6 @@ def _run(case, scratch):
             else:
                 if linker.include != snapshot_include(s0, linker):
                     fail("stored-include-changed", repr(linker.include), step=stepname)
-            if linker.is_merged:
-                fail("linker-still-marked-as-merged-after-clean", None, step=stepname)
 
     def snapshot_include(s, linker):
         return linker.include
